@@ -731,6 +731,10 @@ func init() {
 				for _, ps := range c20CachePresets {
 					c20CacheRun(c20CacheCase{Writer: wr, Preset: ps}, res)
 					res.Evals++
+					if c20ResponderHeaderWriters[wr] {
+						c20CacheRun(c20CacheCase{Writer: wr, Preset: ps, Responder: true}, res)
+						res.Evals++
+					}
 				}
 			}
 			return res, nil
@@ -896,7 +900,13 @@ func init() {
 type c20CacheCase struct {
 	Writer string `json:"writer"`
 	Preset string `json:"preset_cache_control"`
+	// Responder: an endpoint handler put Cache-Control / Pragma / Expires on the *responder* (the writers copy responder
+	// headers to the response, "e.g. X-DONT-CACHE-ME"): the mandatory marking must win over them as well.
+	Responder bool `json:"responder_sets_cache_headers,omitempty"`
 }
+
+// c20ResponderHeaderWriters: the writers whose responder carries headers.
+var c20ResponderHeaderWriters = map[string]bool{"authorize-query": true, "authorize-fragment": true, "authorize-form_post": true, "authorize-custom-mode": true, "par": true, "device": true}
 
 var c20CacheWriters = []string{"access", "access-error", "authorize-query", "authorize-fragment", "authorize-form_post", "authorize-error-query", "authorize-error-direct", "introspection", "introspection-inactive", "introspection-error",
 	"revocation", "revocation-error", "par", "par-error", "device", "device-error", "authorize-custom-mode", "authorize-error-custom-mode"}
@@ -929,6 +939,10 @@ func c20CacheRun(c c20CacheCase, res *WRes) {
 		r := fosite.NewAuthorizeResponse()
 		r.AddParameter("code", "ory_ac_abc.def")
 		r.AddParameter("state", "state-12345678")
+		if c.Responder {
+			r.AddHeader("Cache-Control", "public, max-age=300")
+			r.AddHeader("Pragma", "public")
+		}
 		return r
 	}
 	accReq := fosite.NewAccessRequest(NewSess("user-1"))
@@ -969,12 +983,24 @@ func c20CacheRun(c c20CacheCase, res *WRes) {
 	case "revocation-error":
 		w.Prov.WriteRevocationResponse(ctx, rec, fosite.ErrInvalidClient)
 	case "par":
-		w.Prov.WritePushedAuthorizeResponse(ctx, rec, mkAR(fosite.ResponseModeQuery, true), &fosite.PushedAuthorizeResponse{RequestURI: "urn:ietf:params:oauth:request_uri:abc", ExpiresIn: 300, Header: http.Header{}, Extra: map[string]interface{}{}})
+		pr := &fosite.PushedAuthorizeResponse{RequestURI: "urn:ietf:params:oauth:request_uri:abc", ExpiresIn: 300, Header: http.Header{}, Extra: map[string]interface{}{}}
+		if c.Responder {
+			pr.AddHeader("Cache-Control", "public, max-age=300")
+			pr.AddHeader("Pragma", "public")
+		}
+		w.Prov.WritePushedAuthorizeResponse(ctx, rec, mkAR(fosite.ResponseModeQuery, true), pr)
 	case "par-error":
 		w.Prov.WritePushedAuthorizeError(ctx, rec, mkAR(fosite.ResponseModeQuery, true), e)
 	case "device":
 		dr := fosite.NewDeviceResponse()
 		dr.DeviceCode, dr.UserCode = "ory_dc_abc.def", "ABCDEFGH"
+		if c.Responder {
+			if dr.Header == nil {
+				dr.Header = http.Header{}
+			}
+			dr.AddHeader("Cache-Control", "public, max-age=300")
+			dr.AddHeader("Pragma", "public")
+		}
 		w.Prov.WriteDeviceResponse(ctx, rec, fosite.NewDeviceRequest(), dr)
 	case "device-error":
 		w.Prov.WriteAccessError(ctx, rec, fosite.NewDeviceRequest(), e)
@@ -989,7 +1015,7 @@ func c20CacheRun(c c20CacheCase, res *WRes) {
 		// RFC 7662 answers some failures as {"active":false}: still a response of the endpoint, judged below
 	}
 	if !strings.Contains(cc, "no-store") || !strings.Contains(pr, "no-cache") || strings.Contains(cc, "public") || strings.Contains(cc, "max-age=300") {
-		res.violate(Violation{Property: "C20", Fingerprint: "C20/missing-cache-headers/" + c.Writer + "/preset=" + map[bool]string{true: "none", false: "application-set"}[c.Preset == ""],
+		res.violate(Violation{Property: "C20", Fingerprint: "C20/missing-cache-headers/" + c.Writer + "/preset=" + map[bool]string{true: "none", false: "application-set"}[c.Preset == ""] + map[bool]string{true: "/responder-headers", false: ""}[c.Responder],
 			What: fmt.Sprintf("the %s response leaves with Cache-Control %q / Pragma %q (the response writer came with Cache-Control %q): not marked no-store / no-cache", c.Writer, cc, pr, c.Preset), Engine: "c20cache", Case: c, Expected: "Cache-Control: no-store, Pragma: no-cache", Observed: hdr})
 	}
 }
